@@ -748,3 +748,99 @@ Proof.
   - pose proof (sync_error_realm_wf r meta_id req [] e_no_such_procedure [] [] k W I) as Y.
     destruct (sync_error (r_dealer r) meta_id req [] e_no_such_procedure [] []). exact Y.
 Qed.
+
+(** ** CALL *)
+Lemma dget_disclose_caller : forall sid det d0,
+    dget (disclose_dict "caller" sid det d0) "caller" = Some (vid sid).
+Proof.
+  intros. unfold disclose_dict.
+  destruct (dget det "authid"); destruct (dget det "authrole"); rewrite ?dget_dset; reflexivity.
+Qed.
+
+Lemma call_details_caller : forall cfg caller callee rg opts proc,
+    dget (call_details cfg caller callee rg opts proc) "caller" = None \/
+    dget (call_details cfg caller callee rg opts proc) "caller" = Some (vid (s_id caller)).
+Proof.
+  intros. unfold call_details.
+  repeat match goal with |- context [if ?c then _ else _] => destruct c end;
+    rewrite ?dget_dset; cbn [String.eqb Ascii.eqb Bool.eqb];
+    rewrite ?dget_disclose_caller; auto.
+Qed.
+
+Lemma as_id_vid : forall n c, n <= max_idN -> as_id (vid n) = Some c -> c = n.
+Proof.
+  intros n c Hn. unfold as_id, vid, as_int64, to_int64.
+  assert (E : ((Z.of_N n + two63) mod two64 - two63 = Z.of_N n)%Z).
+  { unfold two63, two64, max_idN in *. rewrite Z.mod_small; lia. }
+  rewrite E. destruct ((0 <? Z.of_N n)%Z && (Z.of_N n <=? max_id)%Z); [|discriminate].
+  intros H; inversion H. apply N2Z.id.
+Qed.
+
+Lemma idgen_next_le : forall n, n < max_idN -> n <= idgen_next n <= n + 1.
+Proof. intros n H. rewrite idgen_next_nowrap by exact H. lia. Qed.
+
+Lemma call_facts : forall cfg lk now d caller req opts proc args kw oracle,
+    lookup_ok lk -> nowrap lk ->
+    match call cfg lk now d caller req opts proc args kw oracle with
+    | CallRefused d' o => d_callee_regs d' = d_callee_regs d /\ d_idgen d' = d_idgen d /\ d_calls d' = d_calls d
+    | CallAbort _ => True
+    | CallInvoked d' callee' o =>
+        (exists callee0, lk (s_id callee') = Some callee0 /\
+                         s_invgen callee0 <= s_invgen callee' <= s_invgen callee0 + 1) /\
+        d_callee_regs d' = d_callee_regs d /\ d_idgen d' = d_idgen d /\
+        (forall c x, cget (d_calls d') c = Some x -> c = (s_id caller, req) \/ cget (d_calls d) c = Some x) /\
+        exists rcv invid regid det, o = [(rcv, RInvocation invid regid det args kw)] /\
+          (dget det "caller" = None \/ dget det "caller" = Some (vid (s_id caller)))
+    end.
+Proof.
+  intros cfg lk now d caller req opts proc args kw oracle LOK NW.
+  pose proof (call_cases cfg lk now d caller req opts proc args kw oracle) as H.
+  inversion H; subst; auto;
+    try (unfold call_d0; cbn [d_callee_regs d_idgen d_calls d_set_regs]; auto; fail).
+  - (* chunk *)
+    match goal with Hl : lk (inv_callee inv) = Some callee |- _ => rename Hl into Hlk end.
+    split; [exists callee; rewrite (LOK _ _ Hlk); split; [exact Hlk|lia]|].
+    rewrite chs_callee_regs, chs_idgen. split; [reflexivity|]. split; [reflexivity|].
+    split; [intros c x; rewrite chs_calls; auto|].
+    do 4 eexists. split; [reflexivity|]. left. reflexivity.
+  - (* first *)
+    match goal with Hl : lk callee_id = Some callee |- _ => rename Hl into Hlk end.
+    cbn [set_invgen s_id s_invgen].
+    split; [exists callee; rewrite (LOK _ _ Hlk); split; [exact Hlk|apply idgen_next_le; eapply NW; eauto]|].
+    rewrite cfs_callee_regs, cfs_idgen. split; [reflexivity|]. split; [reflexivity|].
+    split.
+    + intros c x. rewrite cfs_calls, cget_cset. destruct (pair_eqb_spec c (s_id caller, req)); auto.
+    + do 4 eexists. split; [reflexivity|]. apply call_details_caller.
+Qed.
+
+(** ** Timers, CANCEL *)
+Lemma cancel_frame : forall lk d caller req opts,
+    d_callee_regs (fst (cancel lk d caller req opts)) = d_callee_regs d /\
+    d_idgen (fst (cancel lk d caller req opts)) = d_idgen d.
+Proof.
+  intros. unfold cancel.
+  destruct (_ || _ || _).
+  - destruct (sync_cancel_regs_same lk d caller req (opt_string opts "mode") e_canceled []) as (_ & _ & _ & _ & E & F). auto.
+  - destruct (String.eqb _ ""); [|auto].
+    destruct (sync_cancel_regs_same lk d caller req "killnowait" e_canceled []) as (_ & _ & _ & _ & E & F). auto.
+Qed.
+
+Lemma fire_timers_frame : forall lk now d,
+    d_callee_regs (fst (fire_timers lk now d)) = d_callee_regs d /\
+    d_idgen (fst (fire_timers lk now d)) = d_idgen d /\
+    (calls_core d -> calls_sub d (fst (fire_timers lk now d))).
+Proof.
+  intros lk now d. rewrite fire_timers_fold.
+  assert (G : forall l d o,
+             d_callee_regs (fst (fold_left (fire_step lk) l (d, o))) = d_callee_regs d /\
+             d_idgen (fst (fold_left (fire_step lk) l (d, o))) = d_idgen d /\
+             (calls_core d -> calls_sub d (fst (fold_left (fire_step lk) l (d, o))))); [|apply G].
+  clear d. induction l as [|e l IH]; intros d o; cbn [fold_left].
+  - cbn [fst]. split; [reflexivity|]. split; [reflexivity|]. intros _. apply calls_sub_refl.
+  - destruct (fire_step lk (d, o) e) as [d1 o1] eqn:E.
+    pose proof (fire_step_regs_same lk d o e) as R. pose proof (fire_step_core lk d o e) as C.
+    rewrite E in R, C. cbn [fst] in R, C.
+    destruct (IH d1 o1) as (I1 & I2 & I3). destruct R as (_ & _ & _ & _ & R5 & R6).
+    split; [congruence|]. split; [congruence|].
+    intros W. destruct (C W) as [W1 S1]. eapply calls_sub_trans; [exact S1|]. now apply I3.
+Qed.
